@@ -87,6 +87,9 @@ type emSpec struct {
 	AfterClose int // -1, or: opens only after that (earlier, same type) emitter was closed
 	Pace       int
 	CloseAfter int // 0: Close after all goroutines finished; >0: Close concurrently, once this many of its emits returned
+	// an emitter of a stateful type created WITHOUT the Stateful option (Stateful is an emitter option: the
+	// type is kept stateful by the other emitters of the type, whatever the order they are opened in)
+	Plain bool
 }
 
 type subSpec struct {
@@ -113,8 +116,8 @@ type caseSpec struct {
 func (c *caseSpec) render() map[string]any {
 	var em, su []string
 	for _, e := range c.Emitters {
-		em = append(em, fmt.Sprintf("emitter %d: type %d, %d goroutines x %d events, opens at emit-count %d afterClose=%d, pace %d, closeAfter=%d",
-			e.ID, e.Typ, e.Goroutines, e.PerG, e.StartAt, e.AfterClose, e.Pace, e.CloseAfter))
+		em = append(em, fmt.Sprintf("emitter %d: type %d, %d goroutines x %d events, opens at emit-count %d afterClose=%d, pace %d, closeAfter=%d, without-stateful-option=%v",
+			e.ID, e.Typ, e.Goroutines, e.PerG, e.StartAt, e.AfterClose, e.Pace, e.CloseAfter, e.Plain))
 	}
 	for _, s := range c.Subs {
 		su = append(su, fmt.Sprintf("sub %d: %s types %v buf %d, subscribes at emit-count %d, pace %d, close %s K=%d closeAt=%d stallMs=%d",
@@ -155,6 +158,9 @@ func genCase(r *run.R, idx int) *caseSpec {
 			e.Pace = pick(rng, []int{0, 0, 1, 1, 2, 3})
 			if rng.IntN(3) == 0 {
 				e.CloseAfter = 1 + rng.IntN(e.Goroutines*e.PerG)
+			}
+			if c.Stateful[t] && nEm > 1 && rng.IntN(3) == 0 {
+				e.Plain = true
 			}
 			planned += e.Goroutines * e.PerG
 			lastOfType[t] = e.ID
@@ -663,7 +669,7 @@ func newWorld(r *run.R, spec *caseSpec) *world {
 	w.hist.Stateful = spec.Stateful
 	w.hist.Emitters = make([]emitterLog, nEm+spec.NTypes)
 	for i, e := range spec.Emitters {
-		w.hist.Emitters[i] = emitterLog{ID: i, Typ: e.Typ, Stateful: spec.Stateful[e.Typ], CloseCall: never, CloseRet: never}
+		w.hist.Emitters[i] = emitterLog{ID: i, Typ: e.Typ, Stateful: spec.Stateful[e.Typ] && !e.Plain, CloseCall: never, CloseRet: never}
 	}
 	for t := 0; t < spec.NTypes; t++ {
 		w.hist.Emitters[nEm+t] = emitterLog{ID: nEm + t, Typ: t, Stateful: spec.Stateful[t], CloseCall: never, CloseRet: never}
